@@ -19,6 +19,7 @@ EXTRACT = os.path.join(VERIF, "extract")
 WORK = os.path.join(VERIF, ".work")
 REPO = os.environ.get("VERIF_REPO", "/repo")
 DRIVER = os.path.join(LEAN, ".lake", "build", "bin", "gosse-model")
+DRIVER_PROCS = int(os.environ.get("VERIF_DRIVER_PROCS", "8"))
 ALLOWED_AXIOMS = {"propext", "Classical.choice", "Quot.sound"}
 FORBIDDEN = re.compile(r"\b(sorry|admit|native_decide|bv_decide|implemented_by|unsafe)\b|^\s*axiom\s|maxHeartbeats\s+0")
 
@@ -143,6 +144,8 @@ def proof_step(pid, thorough):
 TRANSLATE = os.path.join(VERIF, "translate")
 GEN_DIR = os.path.join(LEAN, "GoSSE", "Gen")
 GEN_EQUIV = "GoSSE.Proofs.GenEquiv"
+GEN_EQUIV_MODS = ["GoSSE.Proofs.GenEquiv", "GoSSE.Proofs.GenEquivQueue", "GoSSE.Proofs.GenEquivFields"]
+GEN_MODS = ["Parser", "Root", "Fields"]   # in import order
 
 
 def _theorem_at(path, lineno):
@@ -157,13 +160,13 @@ def _theorem_at(path, lineno):
     return name
 
 
-def _gen_errors(text, equiv_path):
+def _gen_errors(text):
     bad = [l for l in text.splitlines() if "error" in l][:6]
     names = []
     for l in bad:
-        m = re.search(r"GenEquiv\.lean:(\d+):", l)
+        m = re.search(r"(GenEquiv\w*)\.lean:(\d+):", l)
         if m:
-            t = _theorem_at(equiv_path, int(m.group(1)))
+            t = _theorem_at(os.path.join(LEAN, "GoSSE", "Proofs", m.group(1) + ".lean"), int(m.group(2)))
             if t and t not in names:
                 names.append(t)
     head = ("theorems that no longer check: " + ", ".join("GoSSE.GenEquiv." + n for n in names) + "\n") if names else ""
@@ -202,11 +205,10 @@ def translate_step():
                         os.remove(os.path.join(GEN_DIR, n))
                 for n in names:
                     shutil.copy(os.path.join(tmp, n), os.path.join(GEN_DIR, n))
-            rc, out, err = sh(["lake", "build", GEN_EQUIV], cwd=LEAN)
+            rc, out, err = sh(["lake", "build"] + GEN_EQUIV_MODS, cwd=LEAN)
             if rc != 0:
                 raise Failure("proof", "the definitions generated from /repo's source are no longer proved equal to the model "
-                              f"(lake build {GEN_EQUIV})",
-                              _gen_errors(out + err, os.path.join(LEAN, "GoSSE", "Proofs", "GenEquiv.lean")) or (out + err)[-2000:])
+                              f"(lake build {' '.join(GEN_EQUIV_MODS)})", _gen_errors(out + err) or (out + err)[-2000:])
         elif not same:
             olean = os.path.join(tmp, "olean")
             env = dict(os.environ, LEAN_PATH=olean + ":" + os.path.join(LEAN, ".lake", "build", "lib", "lean"))
@@ -216,15 +218,15 @@ def translate_step():
                 rel = os.path.relpath(d, built)
                 os.makedirs(os.path.join(olean, rel), exist_ok=True)
                 for fn in fs:
-                    if rel.endswith("Gen") or fn.startswith("GenEquiv."):
+                    if rel.endswith("Gen") or fn.startswith("GenEquiv"):
                         continue
                     os.symlink(os.path.join(d, fn), os.path.join(olean, rel, fn))
             for fn in os.listdir(built):
                 if fn.startswith("GoSSE."):
                     os.symlink(os.path.join(built, fn), os.path.join(olean, fn))
             srcroot = os.path.join(tmp, "src")
-            for mod, orig in [("GoSSE.Gen.Parser", os.path.join(tmp, "Parser.lean")), ("GoSSE.Gen.Root", os.path.join(tmp, "Root.lean")),
-                              (GEN_EQUIV, os.path.join(LEAN, "GoSSE", "Proofs", "GenEquiv.lean"))]:
+            for mod, orig in [("GoSSE.Gen." + g, os.path.join(tmp, g + ".lean")) for g in GEN_MODS] + [
+                    (m, os.path.join(LEAN, *m.split(".")) + ".lean") for m in GEN_EQUIV_MODS]:
                 src = os.path.join(srcroot, *mod.split(".")) + ".lean"
                 os.makedirs(os.path.dirname(src), exist_ok=True)
                 shutil.copy(orig, src)
@@ -233,7 +235,7 @@ def translate_step():
                 rc, out, err = sh(["lean", "--root=" + srcroot, "-o", dst, src], cwd=srcroot, env=env)
                 if rc != 0:
                     raise Failure("proof", "the definitions generated from the source are no longer proved equal to the model "
-                                  f"({mod})", _gen_errors(out + err, os.path.join(LEAN, "GoSSE", "Proofs", "GenEquiv.lean")) or (out + err)[-2000:])
+                                  f"({mod})", _gen_errors(out + err) or (out + err)[-2000:])
         return info
     finally:
         shutil.rmtree(tmp, ignore_errors=True)
@@ -289,14 +291,29 @@ def build_harness(race=False):
     return binp
 
 
-def run_driver(lines):
-    """lines: list of 'case\\tgo' -> list of (m, s)"""
-    if not lines:
-        return []
+def _driver_part(lines):
     p = subprocess.run([DRIVER], input="\n".join(lines) + "\n", capture_output=True, text=True)
     outs = p.stdout.splitlines()
     if p.returncode != 0 or len(outs) != len(lines):
         raise Failure("driver", f"model driver failed (rc={p.returncode}, {len(outs)}/{len(lines)} answers)", p.stderr[-1500:])
+    return outs
+
+
+def run_driver(lines):
+    """lines: list of 'case\\tgo' -> list of (m, s). The driver is a pure function of each line: large batches are
+    split over several driver processes (interleaved, so that long cases spread evenly)."""
+    if not lines:
+        return []
+    k = min(DRIVER_PROCS, max(1, len(lines) // 500))
+    if k <= 1:
+        outs = _driver_part(lines)
+    else:
+        parts = [lines[i::k] for i in range(k)]
+        with concurrent.futures.ThreadPoolExecutor(max_workers=k) as ex:
+            res_parts = list(ex.map(_driver_part, parts))
+        outs = [None] * len(lines)
+        for i, rp in enumerate(res_parts):
+            outs[i::k] = rp
     res = []
     for o in outs:
         f = o.split("\t")
@@ -514,6 +531,9 @@ def main(argv):
     prop = props.PROPS[pid]
     tier = os.environ.get("VERIF_TIER", "quick")
     thorough = tier == "thorough"
+    if thorough:
+        global DRIVER_PROCS
+        DRIVER_PROCS = min(DRIVER_PROCS, 2)   # the thorough tier already runs its generators in parallel
     seed = int(os.environ.get("VERIF_SEED", "1"))
     replay = None
     if "--replay" in argv:
